@@ -10,6 +10,7 @@ import (
 	"encoding/json"
 	"fmt"
 	"os"
+	"os/exec"
 	"path/filepath"
 	"regexp"
 	"sort"
@@ -29,10 +30,16 @@ type env struct {
 	cliMap   string // generator with map iteration behind the simmap seam
 	mapSites int
 	late     [][2]string // files written after the compile check of the generated sources (path, content)
+	strace   bool        // strace can kill a real generator run at a chosen write (history op "crash")
 }
 
 func prepare() *env {
 	e := &env{Env: enga.PrepareEnv()}
+	if _, err := exec.LookPath("strace"); err == nil {
+		if r := drv.Run(e.Scratch, time.Minute, nil, "strace", "-o", "/dev/null", "-e", "trace=write", "true"); r.Err == nil {
+			e.strace = true
+		}
+	}
 	// second copy of the tree: map ranges rewritten
 	repo2 := filepath.Join(e.Scratch, "repo-maporder")
 	drv.CopyRepo(repo2)
@@ -307,6 +314,13 @@ func (e *env) applyOp(dir string, t *target, op histOp) {
 		_ = os.WriteFile(p, []byte(otherVersion(string(orig), op.Arg)), 0o644)
 		e.generate(e.CLI, dir, []string{op.File})
 		_ = os.WriteFile(p, orig, 0o644)
+	case "crash":
+		// a REAL earlier run killed in the middle of its output: SIGKILL at its N-th write system call
+		if !e.strace {
+			return
+		}
+		_ = drv.Run(dir, 2*time.Minute, nil, "strace", "-f", "-o", "/dev/null", "-e", "trace=write", "-e",
+			fmt.Sprintf("inject=write:when=%d:signal=SIGKILL", op.Arg), e.CLI, "-l", "error", op.File)
 	case "truncate":
 		b, err := os.ReadFile(band)
 		if err != nil {
@@ -339,9 +353,12 @@ func genHistory(r *progen.Rand, t *target) []histOp {
 				op.Arg = 1000
 			}
 		case 7:
-			op = histOp{Op: "empty", File: f}
+			op = histOp{Op: "crash", File: f, Arg: 1 + r.Intn(60)}
 		case 8:
 			op = histOp{Op: "delete", File: f}
+			if r.Chance(1, 2) {
+				op = histOp{Op: "empty", File: f}
+			}
 		case 9:
 			if len(t.files) > 1 {
 				op = histOp{Op: []string{"gen_reverse", "gen_single"}[r.Intn(2)], File: f}
@@ -352,7 +369,7 @@ func genHistory(r *progen.Rand, t *target) []histOp {
 		ops = append(ops, op)
 	}
 	// a truncation only means something when there is a file to truncate
-	if ops[0].Op == "truncate" || ops[0].Op == "empty" || ops[0].Op == "delete" {
+	if ops[0].Op == "truncate" || ops[0].Op == "empty" || ops[0].Op == "delete" || (ops[0].Op == "crash" && r.Chance(1, 2)) {
 		ops = append([]histOp{{Op: "gen", File: ops[0].File}}, ops...)
 	}
 	return ops
